@@ -29,10 +29,29 @@ struct Gen<'a> {
     rng: &'a mut Rng,
     /// bias: probability (in 1/16) that a read picks a parameter register
     param_bias: u64,
+    /// "probe" registers of the current function: never read or written by the random parts, so
+    /// that their ONLY read is the one probe instruction placed by the generator
+    exclude: Vec<&'static str>,
 }
 
 impl<'a> Gen<'a> {
     fn read_reg(&mut self) -> &'static str {
+        loop {
+            let r = self.read_reg_any();
+            if !self.exclude.contains(&r) {
+                return r;
+            }
+        }
+    }
+    fn write_reg(&mut self) -> &'static str {
+        loop {
+            let r = self.write_reg_any();
+            if !self.exclude.contains(&r) {
+                return r;
+            }
+        }
+    }
+    fn read_reg_any(&mut self) -> &'static str {
         let k = self.rng.below(16);
         if k < self.param_bias {
             PARAM[self.rng.below(6) as usize]
@@ -44,7 +63,7 @@ impl<'a> Gen<'a> {
             }
         }
     }
-    fn write_reg(&mut self) -> &'static str {
+    fn write_reg_any(&mut self) -> &'static str {
         match self.rng.below(20) {
             0..=8 => PARAM[self.rng.below(6) as usize],
             9..=12 => SAVED[self.rng.below(6) as usize],
@@ -93,7 +112,13 @@ impl<'a> Gen<'a> {
                 8,
                 e_sub(0, 4, self.expr8(depth - 1)),
             ),
-            _ => e_unknown("unk", 8),
+            _ => {
+                if self.rng.chance(1, 2) {
+                    self.indexed()
+                } else {
+                    e_unknown("unk", 8)
+                }
+            }
         }
     }
     fn cond(&mut self, depth: u32) -> Expression {
@@ -129,20 +154,65 @@ impl<'a> Gen<'a> {
             e_bin(BinOpType::IntAdd, e_var(base, 8), e_const(off as u64, 8))
         }
     }
+    /// an offset computed from `idx` (scaled, shifted, masked, truncated/extended, negated, nested)
+    fn index_form(&mut self, idx: Expression) -> Expression {
+        match self.rng.below(10) {
+            0 => e_bin(BinOpType::IntMult, idx, e_const(*self.rng.pick(&[2u64, 4, 8, 16, 24]), 8)),
+            1 => e_bin(BinOpType::IntLeft, idx, e_const(1 + self.rng.below(4), 8)),
+            2 => e_bin(BinOpType::IntAnd, idx, e_const(*self.rng.pick(&[0xffu64, 0xfff8, 7]), 8)),
+            3 => e_cast(CastOpType::IntZExt, 8, e_sub(0, 4, idx)),
+            4 => e_cast(CastOpType::IntSExt, 8, e_sub(0, *self.rng.pick(&[1u64, 2, 4]), idx)),
+            5 => e_un(UnOpType::Int2Comp, idx),
+            6 => e_bin(BinOpType::IntMult, e_bin(BinOpType::IntAdd, idx, self.konst()), e_const(*self.rng.pick(&[4u64, 8]), 8)),
+            7 => e_bin(BinOpType::IntLeft, e_bin(BinOpType::IntAnd, idx, e_const(0xff, 8)), e_const(3, 8)),
+            8 => e_bin(BinOpType::IntRight, idx, e_const(1 + self.rng.below(3), 8)),
+            _ => idx,
+        }
+    }
+    /// `base` combined with an offset
+    fn combine(&mut self, base: Expression, off: Expression) -> Expression {
+        match self.rng.below(8) {
+            0..=2 => e_bin(BinOpType::IntAdd, base, off),
+            3 => e_bin(BinOpType::IntAdd, off, base),
+            4 => e_bin(BinOpType::IntSub, base, off),
+            5 => e_bin(BinOpType::IntAdd, e_bin(BinOpType::IntAdd, base, off), self.konst()),
+            6 => e_bin(BinOpType::IntAdd, base, e_bin(BinOpType::IntAdd, off, self.konst())),
+            _ => e_bin(BinOpType::IntOr, base, off),
+        }
+    }
+    /// base + index*scale and relatives over random registers
+    fn indexed(&mut self) -> Expression {
+        let base = e_var(self.read_reg(), 8);
+        let idx = e_var(self.read_reg(), 8);
+        let off = self.index_form(idx);
+        if self.rng.chance(1, 8) {
+            off
+        } else {
+            self.combine(base, off)
+        }
+    }
     fn addr(&mut self) -> Expression {
-        match self.rng.below(20) {
+        match self.rng.below(24) {
             0..=6 => self.stack_addr(),
-            7..=11 => e_var(self.read_reg(), 8),
-            12..=16 => e_bin(
+            7..=10 => e_var(self.read_reg(), 8),
+            11..=13 => e_bin(
                 *self.rng.pick(&[BinOpType::IntAdd, BinOpType::IntAdd, BinOpType::IntSub]),
                 e_var(self.read_reg(), 8),
                 self.konst(),
             ),
-            _ => e_bin(
+            14 | 15 => e_bin(
                 *self.rng.pick(&[BinOpType::IntAdd, BinOpType::IntSub, BinOpType::IntAnd]),
                 e_var(self.read_reg(), 8),
                 e_var(self.read_reg(), 8),
             ),
+            16 => {
+                // stack array: RSP + const + index*scale
+                let idx = e_var(self.read_reg(), 8);
+                let off = self.index_form(idx);
+                let st = self.stack_addr();
+                self.combine(st, off)
+            }
+            _ => self.indexed(),
         }
     }
     fn def(&mut self, t: &str) -> Term<Def> {
@@ -230,11 +300,52 @@ fn gen_project(rng: &mut Rng, out: &mut Out) -> Project {
             out.count("fn:diamond");
         }
         let bt = |j: usize| format!("f{}_b{}", i, j);
+        // probe registers: parameter registers whose ONLY read in this function is one instruction
+        // at the start (or the conditional jump at the end) of the entry block, in a chosen position
+        let mut probes: Vec<(&'static str, u64)> = Vec::new();
+        if rng.chance(3, 4) {
+            let n_p = 1 + rng.below(2);
+            while (probes.len() as u64) < n_p {
+                let r = PARAM[rng.below(6) as usize];
+                if !probes.iter().any(|(x, _)| *x == r) {
+                    probes.push((r, rng.below(7)));
+                }
+            }
+        }
+        let exclude: Vec<&'static str> = probes.iter().map(|(r, _)| *r).collect();
         let mut blocks = Vec::new();
         for j in 0..n_blocks {
-            let mut g = Gen { rng, param_bias };
+            let mut g = Gen { rng, param_bias, exclude: exclude.clone() };
             let mut defs = Vec::new();
             let mut k = 0;
+            let mut probe_cond: Option<Expression> = None;
+            if j == 0 {
+                for (pi, (r, kind)) in probes.iter().enumerate() {
+                    let t = format!("{}_p{}", bt(j), pi);
+                    let idx = g.index_form(e_var(r, 8));
+                    let base = if g.rng.chance(1, 4) { g.stack_addr() } else { e_var(g.read_reg(), 8) };
+                    let pos = if g.rng.chance(1, 6) { idx } else { g.combine(base, idx) };
+                    out.count(&format!("probe:{}", kind));
+                    match kind {
+                        0 => defs.push(d_load(&t, var(g.write_reg(), 8), pos)),
+                        1 => {
+                            let v = g.expr8(1);
+                            defs.push(d_store(&t, pos, v))
+                        }
+                        2 => {
+                            let a = g.stack_addr();
+                            defs.push(d_store(&t, a, pos))
+                        }
+                        3 => {
+                            let a = e_var(g.read_reg(), 8);
+                            defs.push(d_store(&t, a, pos))
+                        }
+                        4 => defs.push(d_assign(&t, var(g.write_reg(), 8), pos)),
+                        5 => defs.push(d_assign(&t, var(FLAGS[g.rng.below(2) as usize], 1), e_bin(BinOpType::IntSLess, pos, g.konst()))),
+                        _ => probe_cond = Some(e_bin(BinOpType::IntNotEqual, pos, g.konst())),
+                    }
+                }
+            }
             if j == 0 && g.rng.chance(1, 5) {
                 // push rbp; mov rbp, rsp
                 defs.push(d_assign(&format!("{}_d{}", bt(j), k), var("RSP", 8), e_bin(BinOpType::IntSub, e_var("RSP", 8), e_const(8, 8))));
@@ -267,7 +378,9 @@ fn gen_project(rng: &mut Rng, out: &mut Out) -> Project {
                 }
             };
             let last = j + 1 == n_blocks;
-            let choice = if last && g.rng.chance(2, 3) {
+            let choice = if probe_cond.is_some() {
+                20
+            } else if last && g.rng.chance(2, 3) {
                 100
             } else if caller_style && g.rng.chance(1, 2) {
                 40
@@ -276,7 +389,7 @@ fn gen_project(rng: &mut Rng, out: &mut Out) -> Project {
             };
             let jmps: Vec<Term<Jmp>> = match choice {
                 _ if diamond && j == 0 => {
-                    let c = g.cond(1);
+                    let c = probe_cond.clone().unwrap_or_else(|| g.cond(1));
                     vec![j_cbranch(&jt(0), &bt(2), c), j_branch(&jt(1), &bt(1))]
                 }
                 _ if diamond && j < 3 => vec![j_branch(&jt(0), &bt(3))],
@@ -287,7 +400,7 @@ fn gen_project(rng: &mut Rng, out: &mut Out) -> Project {
                 }
                 11..=28 => {
                     out.count("jmp:cbranch+branch");
-                    let c = g.cond(1);
+                    let c = probe_cond.clone().unwrap_or_else(|| g.cond(1));
                     vec![j_cbranch(&jt(0), &any(&mut g), c), j_branch(&jt(1), &fwd(&mut g))]
                 }
                 29..=38 => {
@@ -367,6 +480,76 @@ fn gen_project(rng: &mut Rng, out: &mut Out) -> Project {
     project_x64(program(subs, externs, vec![tid("f0")]))
 }
 
+/// Directed set (always run): one single-block function per (instruction position, offset form) in
+/// which the base register RDI (RSP for stack arguments) and the index register RSI are each read
+/// exactly once, inside the expression at that position.
+fn directed_projects() -> Vec<Project> {
+    let idx = || e_var("RSI", 8);
+    let forms: Vec<(&str, Box<dyn Fn(Expression) -> Expression>)> = vec![
+        ("mul", Box::new(move |b| e_bin(BinOpType::IntAdd, b, e_bin(BinOpType::IntMult, idx(), e_const(8, 8))))),
+        ("shl", Box::new(move |b| e_bin(BinOpType::IntAdd, b, e_bin(BinOpType::IntLeft, idx(), e_const(3, 8))))),
+        ("sub-mul", Box::new(move |b| e_bin(BinOpType::IntSub, b, e_bin(BinOpType::IntMult, idx(), e_const(4, 8))))),
+        ("and", Box::new(move |b| e_bin(BinOpType::IntAdd, b, e_bin(BinOpType::IntAnd, idx(), e_const(0xff, 8))))),
+        ("nested", Box::new(move |b| {
+            e_bin(
+                BinOpType::IntAdd,
+                e_bin(BinOpType::IntAdd, b, e_bin(BinOpType::IntMult, e_bin(BinOpType::IntAdd, idx(), e_const(1, 8)), e_const(4, 8))),
+                e_const(16, 8),
+            )
+        })),
+        ("zext-subpiece", Box::new(move |b| e_bin(BinOpType::IntAdd, b, e_cast(CastOpType::IntZExt, 8, e_sub(0, 4, idx()))))),
+        ("neg", Box::new(move |b| e_bin(BinOpType::IntAdd, b, e_un(UnOpType::Int2Comp, idx())))),
+        ("shr-swapped", Box::new(move |b| e_bin(BinOpType::IntAdd, e_bin(BinOpType::IntRight, idx(), e_const(2, 8)), b))),
+        ("plain-sub", Box::new(move |b| e_bin(BinOpType::IntSub, b, idx()))),
+    ];
+    let ret = || j_return("f0_b1_j0", Expression::Var(tmp("$ret", 8)));
+    let mut v = Vec::new();
+    for (_fname, f) in forms.iter() {
+        for kind in 0..10 {
+            let e = f(e_var(if kind == 9 { "RSP" } else { "RDI" }, 8));
+            let mut externs = Vec::new();
+            let mut b0_defs = Vec::new();
+            let mut b0 = blk("f0_b0", vec![], vec![j_branch("f0_b0_j0", "f0_b1")]);
+            match kind {
+                0 => b0_defs.push(d_load("f0_b0_d0", var("RAX", 8), e)),
+                1 => b0_defs.push(d_store("f0_b0_d0", e, e_const(0, 8))),
+                2 => b0_defs.push(d_store("f0_b0_d0", e_bin(BinOpType::IntAdd, e_var("RSP", 8), e_const((-8i64) as u64, 8)), e)),
+                3 => b0_defs.push(d_store("f0_b0_d0", e_var("RDX", 8), e)),
+                4 => b0_defs.push(d_assign("f0_b0_d0", var("RAX", 8), e)),
+                5 => {
+                    b0.term.jmps = vec![
+                        j_cbranch("f0_b0_j0", "f0_b1", e_bin(BinOpType::IntEqual, e, e_const(0, 8))),
+                        j_branch("f0_b0_j1", "f0_b1"),
+                    ]
+                }
+                6 => {
+                    b0.term.jmps = vec![j_branch_ind("f0_b0_j0", e)];
+                    b0.term.indirect_jmp_targets = vec![tid("f0_b1")];
+                }
+                7 => b0.term.jmps = vec![j_call_ind("f0_b0_j0", e, Some("f0_b1"))],
+                8 => {
+                    externs.push(extern_symbol("x_ext", "ext_dir", vec![Arg::Register { expr: e, data_type: None }], vec![reg_arg("RAX")], false));
+                    b0.term.jmps = vec![j_call("f0_b0_j0", "x_ext", Some("f0_b1"))];
+                }
+                _ => {
+                    externs.push(extern_symbol(
+                        "x_ext",
+                        "ext_dir",
+                        vec![Arg::Stack { address: e, size: ByteSize::new(8), data_type: None }],
+                        vec![reg_arg("RAX")],
+                        false,
+                    ));
+                    b0.term.jmps = vec![j_call("f0_b0_j0", "x_ext", Some("f0_b1"))];
+                }
+            }
+            b0.term.defs = b0_defs;
+            let b1 = blk("f0_b1", vec![], vec![ret()]);
+            v.push(project_x64(program(vec![sub("f0", "fn0", vec![b0, b1], None)], externs, vec![tid("f0")])));
+        }
+    }
+    v
+}
+
 /// run the real analysis; canonical result
 fn eval(project: &Project) -> Value {
     let p = std::panic::AssertUnwindSafe(project);
@@ -409,7 +592,8 @@ fn main() {
     let args = Args::parse();
     let mut out = Out::new(
         &args,
-        "generated projects of 1-4 functions (1-6 blocks each; assignments, flags, loads/stores incl. stack spills, \
+        "a directed set (one function per instruction position x offset form: base+index*scale, shifts, masks, casts, nested) and \
+         generated projects of 1-4 functions with probe registers read exactly once (1-6 blocks each; assignments, flags, loads/stores incl. stack spills, \
          branches, loops, extern/internal/indirect calls, returns, dead ends); the real get_program_cfg + \
          compute_function_signatures; non-trivial = the analysis reported at least one register parameter; distinct by project",
     );
@@ -421,6 +605,10 @@ fn main() {
         }
         out.finish();
         return;
+    }
+    for project in directed_projects() {
+        out.count("directed");
+        emit(&mut out, &project);
     }
     let mut rng = Rng::new(args.seed);
     let n = args.num("projects", 500, 20000);
